@@ -107,6 +107,7 @@ class SnmpSession(object):
         self._sock: SnmpClientSocketProtocol
         self._to_refresh = False
         self._deferred_user: Optional[User] = None
+        self._discovering = False
         if version == SnmpVersion.v1:
             self._sock = SnmpV1ClientSocket(
                 f"{addr}:{port}",
@@ -191,6 +192,10 @@ class SnmpSession(object):
             except BaseException as e:  # noqa: BLE001
                 future.set_exception(e)
 
+        if self._deferred_user and not self._discovering:
+            # Used without entering the session:
+            # run the deferred engine id discovery first
+            await self.refresh()
         if self._policer:
             await self._policer.wait()
         try:
@@ -379,8 +384,12 @@ class SnmpSession(object):
 
         if self._deferred_user:
             # First check runs engine id discovery
-            await self._send(self._sock.send_refresh)
-            await self._recv(self._sock.recv_refresh)
+            self._discovering = True
+            try:
+                await self._send(self._sock.send_refresh)
+                await self._recv(self._sock.recv_refresh)
+            finally:
+                self._discovering = False
             # Set and localize actual keys
             self._sock.set_keys(
                 self._deferred_user.name,
